@@ -1296,6 +1296,21 @@ func (c *Conn) writeResponse(code int, enhCode EnhancedCode, text ...string) {
 	// transform each single line with \n, into separate lines
 	text = strings.Split(strings.Join(text, "\n"), "\n")
 
+	// A reply is made of text lines: control characters taken over from the
+	// client's input (an unknown verb, a greeting name, a mailbox) must not
+	// get into it, a bare CR or LF least of all.
+	for i, line := range text {
+		if strings.IndexFunc(line, isReplyControl) >= 0 {
+			b := []byte(line)
+			for j, ch := range b {
+				if isReplyControl(rune(ch)) {
+					b[j] = ' '
+				}
+			}
+			text[i] = string(b)
+		}
+	}
+
 	lastLineIndex := len(text) - 1
 	for i := 0; i < lastLineIndex; i++ {
 		c.text.PrintfLine("%d-%v", code, text[i])
@@ -1305,6 +1320,10 @@ func (c *Conn) writeResponse(code int, enhCode EnhancedCode, text ...string) {
 	} else {
 		c.text.PrintfLine("%d %v.%v.%v %v", code, enhCode[0], enhCode[1], enhCode[2], text[lastLineIndex])
 	}
+}
+
+func isReplyControl(ch rune) bool {
+	return ch < ' ' && ch != '\t' || ch == 0x7f
 }
 
 func (c *Conn) writeError(code int, enhCode EnhancedCode, err error) {
